@@ -165,8 +165,8 @@ def ob_watermarks(run, oid):
                 for (wb, _sp, rv) in [x for x in K.writes_of_field(b, "FinalityTracker", fld) if x[0] == bb]:
                     t = b.rvalue_term(rv)
                     if fld == "highest_finalized_slot":
-                        ok = t[0] == "call" and t[1].endswith("::max") and any(K.mentions_field(a, fld) for a in t[2])
-                        o.check(ok, "%s|monotone|%s" % (fld, fshort(fn)), "highest_finalized_slot = max(slot, old)", sp, {"value": mir.show(t)})
+                        ok = D.monotone_write(prog, b, bb, t, fld)
+                        o.check(ok, "%s|monotone|%s" % (fld, fshort(fn)), "highest_finalized_slot only ever increases (max(slot, old), or written under old < slot)", sp, {"value": mir.show(t)})
                     else:
                         # written inside the loop guarded by "next slot is decided"
                         decided = decided_set_guard(prog, b, bb)
